@@ -541,6 +541,16 @@ def oracle_cell_nonneg(case, ri):
     return None
 
 
+def gen_cell(rng, cls, signs):
+    """a C18 cell case with the learning-rate signs forced (every trainer x sign mode is exercised on every run)"""
+    c = c18.gen_case(rng, cls)
+    t = c["trainer"]
+    a, b = ("lr_post", "lr_pre") if cls in c18.KER else ("lr_pos", "lr_neg")
+    t[a] = signs[0] * rng.choice([1.0, 0.5, 0.3, 0.7])
+    t[b] = signs[1] * rng.choice([1.0, 0.5, 0.25])
+    return c
+
+
 # ------------------------------------------------------------------ driver
 def known_listed():
     return any(k.get("property") == ID and (k.get("match") or {}).get("kind") == FINDING_KIND
@@ -643,7 +653,7 @@ def exhaustive_stdp(maxlen):
     """every pre/post history of length <= maxlen on a 1x1 cell for every trainer x sign mode (cumulative traces)"""
     import itertools
     out = []
-    for tr in TRAINERS:
+    for tr in (TRAINERS if maxlen > 2 else ["STDP", "TripletSTDP", "MSTDP", "MSTDPET"]):
         for si, (sp, sq) in enumerate(SIGNS):
             hp = gen_hp(random.Random(TRAINERS.index(tr) * 10 + si), sp, sq)
             for L in range(1, maxlen + 1):
@@ -661,13 +671,14 @@ def run(ctx):
     rng = random.Random(ctx["seed"])
     quick = ctx["tier"] == "quick"
     c18.STATS.clear()
-    n_h, n_s, n_c = (150, 150, 70) if quick else (2500, 2500, 900)
+    n_h, n_s, n_c = (150, 150, 24) if quick else (2500, 2500, 600)
     cases = load_corpus() + [copy.deepcopy(WITNESS)]
     cases += [gen_homeo(rng) for _ in range(n_h)]
     # every trainer x sign mode at least twice
     cases += [gen_stdp(rng, tr, sg) for tr in TRAINERS for sg in SIGNS for _ in range(2 if quick else 8)]
     cases += [gen_stdp(rng) for _ in range(n_s)]
     cases += exhaustive_stdp(2 if quick else 3)
+    cases += [gen_cell(rng, cls, sg) for cls in c18.TWO + c18.KER + c18.THREE for sg in SIGNS for _ in range(2 if quick else 12)]
     cases += [c18.gen_case(rng) for _ in range(n_c)]
     ok_exec, mk_out = ensure_exec()
     impl, mismatches, fails = evaluate(cases)
@@ -703,7 +714,8 @@ def run(ctx):
                  "modes x two trace modes (dense/direct up to 2x2, batch 1-3, 1-7 steps, delays 0-2 steps in both trainer modes, "
                  "scalar and per-sample rewards of both signs and zero) with default / upper-lower (multiplicative, sharp, scaled) "
                  "/ full bounds installed on the accumulator, exhaustive 1x1 histories of length <= %d for every trainer x sign "
-                 "mode, and the seven delay-adjusted / kernel trainers through the C18 generator; non-trivial = >= 2 steps (STDP: "
+                 "mode (quick: the four unstable trainers), and the seven delay-adjusted / kernel trainers x four sign modes "
+                 "through the C18 generator; non-trivial = >= 2 steps (STDP: "
                  "with a pre and a post spike)" % (2 if quick else 3)),
         "samples": [strip(c) for c in (homeo[1:2] + stdp[:1])],
         "mismatches": mismatches, "oracle_failures": oracle_failures,
